@@ -49,7 +49,9 @@ func vxEnter() {
 	}
 }
 
-// vxExit is called after the operation: the window may end right here.
+// vxExit is called after the operation. The thread keeps running its plain
+// code and pauses in vxEnter of its next visible operation once the budget of
+// the round is used up (plain code runs eagerly after the preceding visible op).
 func vxExit() {
 	if VxRT == nil || VxRT.sch == nil || VxRT.sch.free {
 		return
@@ -60,10 +62,6 @@ func vxExit() {
 	}
 	th.ops++
 	th.budget--
-	if th.budget == 0 {
-		VxRT.sch.back <- struct{}{}
-		th.budget = <-th.wake
-	}
 }
 
 // vxBlock parks the current thread until cond() holds (a disabled blocking operation).
@@ -120,9 +118,11 @@ func VxPar(fs ...func()) {
 		th := &vxThread{id: i, wake: make(chan int)}
 		s.threads = append(s.threads, th)
 	}
+	// start: every thread runs its leading plain code up to its first visible operation
 	for i, f := range fs {
+		th := s.threads[i]
+		r.cur = th.id
 		go func(th *vxThread, f func()) {
-			th.budget = <-th.wake
 			defer func() {
 				if e := recover(); e != nil {
 					r.mu.Lock()
@@ -133,7 +133,9 @@ func VxPar(fs ...func()) {
 				s.back <- struct{}{}
 			}()
 			f()
-		}(s.threads[i], f)
+		}(th, f)
+		<-s.back
+		r.cur = -1
 	}
 	grant := func(th *vxThread, n int) {
 		r.cur = th.id
@@ -181,3 +183,39 @@ func VxYield() {
 
 func VxYieldEnter() { vxEnter() }
 func VxYieldExit()  { vxExit() }
+
+// VxParStalled: the writer runs a prefix of its visible operations (budget
+// Sched[0][0]) and is then stalled for ever; the reader runs alone to the end.
+func VxParStalled(w func(), rd func()) {
+	r := VxRT
+	if r == nil {
+		w()
+		rd()
+		return
+	}
+	s := &vxSched{back: make(chan struct{})}
+	r.sch = s
+	th := &vxThread{id: 0, wake: make(chan int)}
+	s.threads = []*vxThread{th, {id: 1}}
+	go func() {
+		th.budget = <-th.wake
+		defer func() {
+			recover()
+			th.done = true
+			s.back <- struct{}{}
+		}()
+		w()
+	}()
+	budget := 0
+	if len(r.Sched) > 0 && len(r.Sched[0]) > 0 {
+		budget = r.Sched[0][0]
+	}
+	r.cur = 0
+	th.wake <- budget
+	<-s.back
+	// the writer is now parked (or done); the reader runs on this goroutine, unscheduled
+	s.threads[1].budget = 1 << 30
+	r.cur = 1
+	rd()
+	r.cur = -1
+}
